@@ -1107,6 +1107,13 @@ fn main() {
                     || pack(format!("(sym_f {} {})", vals_f_coq, cf)), || run(|| imp::sym(|| xf.clone(), &vals_f)));
                 em.case("custom:exact", &tg("pos", "f64", "titer"), &ds("pos", "f64", "titer", POS_LAYOUT),
                     || pack(format!("(pos_f {})", cf)), || run(|| imp::pos(|| xf.titer(), || xf.titer())));
+                // the mean family on the same values: an infinity FOLLOWED by further valid elements must stay that infinity
+                // (seed C11-6: a compensated sum turns inf into NaN at the next element); the float model mirrors every operation
+                {
+                    let maxmp = len + 1;
+                    em.case("custom:float:1e-9", &tg("mom", "f64", "vec"), &ds("mom", "f64", "vec", MOM_LAYOUT),
+                        || sweep(maxmp, &format!("mom_f mp {}", cf)), || run(|| imp::mom(|| xf.clone(), maxmp)));
+                }
                 // the option view and the Option<f64> encoding of the same logical series
                 let o = xf.opt();
                 let vals_o: Vec<Option<f64>> = vals_f.iter().map(|x| if x.is_nan() { None } else { Some(*x) }).collect();
